@@ -40,12 +40,12 @@ ASSUMPTIONS = [
     "percent_completed is read before every params() call, as ScheduleHandle.__call__ does; an exception while reading it counts as a value outside [0,1]",
 ]
 REQUIRED_CLAUSES = [
-    "e2e:race-succeeds", "e2e:exactly-once", "e2e:pairing", "e2e:bulk-size-bound", "e2e:client-order",
+    "held-bulk-unchanged", "e2e:race-succeeds", "e2e:exactly-once", "e2e:pairing", "e2e:bulk-size-bound", "e2e:client-order",
     "completes", "bulk-size-bound", "pairing", "doc-identity", "contiguous-in-order", "exactly-once", "ingest-stop", "ingest-prefix", "conflict-ids",
     "percent-completed",
 ] + arith.CLAUSES
 REQUIRED_FEATURES = {
-    "e2e": 10, "e2e:multi-worker": 3, "e2e:two-bulk-tasks-in-parallel": 3,
+    "e2e": 10, "e2e:multi-worker": 3, "e2e:two-bulk-tasks-in-parallel": 3, "e2e:throttled-batches-shared-source": 2,
     "quick": {
         "offset-table-seek": 10, "offset-table-exact-entry": 2, "big-skip-without-table": 2, "multi-byte": 50, "crlf": 50, "action-meta-data-file": 50, "generated-meta-data": 50,
         "multi-corpus": 30, "multi-file": 30, "colocated-clients": 100, "split-hosts": 30, "split-random": 30, "split-allocator": 10,
@@ -555,6 +555,7 @@ def run_group(obs, ex, tr, case, gi, group, ingest, max_calls):
         return
     active = list(range(len(group)))
     calls, step, stopped, last_pc = 0, 0, 0, None
+    held_bulks = {}
     mode = case["order"]
     while active:
         if mode == "random":
@@ -598,6 +599,16 @@ def run_group(obs, ex, tr, case, gi, group, ingest, max_calls):
         p.update({"operation-type": op.type})  # ScheduleHandle.params_with_operation_type
         calls += 1
         ex.on_bulk(gi, group, p)
+        # a throttled client holds the bulk it was given while co-located clients ask the same source for theirs: what it holds must stay what it got
+        obs.clause("held-bulk-unchanged")
+        for other, (held, snap) in held_bulks.items():
+            if other != k and (held is p or (held.get("body"), held.get("bulk-size")) != snap):
+                ex.problem("held-bulk-unchanged", f"{g}: the bulk handed to client {group[other]} earlier "
+                           + ("is the same dict object as" if held is p else "was changed by") + f" the bulk handed to client {group[k]} now (call {calls})",
+                           {"same_object": held is p, "bulks_emitted": calls})
+                held_bulks.clear()
+                break
+        held_bulks[k] = (p, (p.get("body"), p.get("bulk-size")))
         if calls > max_calls:
             ex.problem("completes", f"{g}: the source did not stop after {calls} bulks although all targeted files together have fewer documents", {"phase": "unbounded"})
             return
